@@ -157,7 +157,8 @@ package corebgp
 //@   ensures [entries_ok]   err == nil ==> (forall k :: 0 <= k && k < len(r) ==> pfxOK(b, offs[k], ipv6))
 //@   ensures [values]       err == nil ==> (forall k :: 0 <= k && k < len(r) ==> r[k] == pfxAt(b, offs[k], ipv6))
 //@   ensures [empty]        len(b) == 0 ==> err == nil && r == nil
-//@   ensures [fault_present] err != nil ==> r == nil && (exists o :: 0 <= o && o < len(b) && !pfxOK(b, o, ipv6))
+// (the fault is exhibited by the explicit witness fpos rather than an existential)
+//@   ensures [fault_present] err != nil ==> r == nil && 0 <= fpos && fpos < len(b) && !pfxOK(b, fpos, ipv6)
 //@   loop#0 invariant [suffix]  suffixOf(b, b0) && fresh(prefixes.arr)
 //@   loop#0 invariant [chain]   pfxChain(b0, offs, len(prefixes), offsetIn(b, b0))
 //@   loop#0 invariant [entries] forall k :: 0 <= k && k < len(prefixes) ==> pfxOK(b0, offs[k], ipv6) && prefixes[k] == pfxAt(b0, offs[k], ipv6)
@@ -178,7 +179,7 @@ package corebgp
 //@   ensures [entries_ok]   err == nil ==> (forall k :: 0 <= k && k < len(r) ==> apOK(b, offs[k], ipv6))
 //@   ensures [values]       err == nil ==> (forall k :: 0 <= k && k < len(r) ==> r[k].ID == be32(b, offs[k]) && r[k].Prefix == pfxAt(b, offs[k] + 4, ipv6))
 //@   ensures [empty]        len(b) == 0 ==> err == nil && r == nil
-//@   ensures [fault_present] err != nil ==> r == nil && (exists o :: 0 <= o && o < len(b) && !apOK(b, o, ipv6))
+//@   ensures [fault_present] err != nil ==> r == nil && 0 <= fpos && fpos < len(b) && !apOK(b, fpos, ipv6)
 //@   loop#0 invariant [suffix]  suffixOf(b, b0) && fresh(prefixes.arr)
 //@   loop#0 invariant [chain]   apChain(b0, offs, len(prefixes), offsetIn(b, b0))
 //@   loop#0 invariant [entries] forall k :: 0 <= k && k < len(prefixes) ==> apOK(b0, offs[k], ipv6) && prefixes[k].ID == be32(b0, offs[k]) && prefixes[k].Prefix == pfxAt(b0, offs[k] + 4, ipv6)
